@@ -18,7 +18,7 @@ typedef struct {
     char ptrfmt[24], indfmt[24], valfmt[28], rhsfmt[28]; int rawfmt;
 } layout_t;
 
-/* ---------- matrices: all m x n 0/1 patterns with at least one entry, m,n <= 3 (empty columns/rows included) ---------- */
+/* ---------- matrices: all m x n 0/1 patterns with at least one entry, m,n <= 3 (empty columns/rows included), plus 7 full card-count matrices ---------- */
 typedef struct { int m, n; unsigned bits; int symok; } smat_t;
 static smat_t MATS[800]; static int NMAT;
 static int mbit(const smat_t *M, int i, int j) { return (M->bits >> (i * M->n + j)) & 1; }
@@ -28,6 +28,10 @@ static void build_mats(int maxdim) {
         smat_t *M = &MATS[NMAT++]; M->m = m; M->n = n; M->bits = b; M->symok = (m == n);
         if (m == n) for (int i = 0; i < m; i++) for (int j = 0; j < n; j++) if (mbit(M, i, j) != mbit(M, j, i)) M->symok = 0;
     }
+    /* card-count matrices (added after seeded change C20/2 was missed): full patterns with 10, 12, 20 and 30 entries, so that the header's
+       card counts PTRCRD/INDCRD/VALCRD take the values 1..30 (with one or two numbers per line: 10, 12, 15, 20, 30 lines) */
+    if (maxdim >= 3) { static const int XM[7][2] = { { 5, 2 }, { 2, 5 }, { 4, 3 }, { 3, 4 }, { 5, 4 }, { 4, 5 }, { 5, 6 } };
+        for (int k = 0; k < 7; k++) { smat_t *M = &MATS[NMAT++]; M->m = XM[k][0]; M->n = XM[k][1]; M->bits = (unsigned)((1ull << (M->m * M->n)) - 1); M->symok = 0; } }
 }
 /* value seeds.  vs 0: short decimals with signs and exponents; vs 1: 16-18 digit decimals, among them decimals that sit
  * just beside the midpoint of two adjacent floats (a reader that rounds decimal -> double -> float gets those wrong) */
@@ -267,7 +271,7 @@ static int parse_case(const char *s, layout_t *L, smat_t *M) {
     base_layout(rd, L);
     if (!getkv(s, "m", v, sizeof v)) return -1; M->m = atoi(v);
     if (!getkv(s, "n", v, sizeof v)) return -1; M->n = atoi(v);
-    if (M->m < 1 || M->n < 1 || M->m > 3 || M->n > 3 || !getkv(s, "pat", v, sizeof v) || (int)strlen(v) != M->m * M->n) return -1;
+    if (M->m < 1 || M->n < 1 || M->m > 6 || M->n > 6 || M->m * M->n > 32 || !getkv(s, "pat", v, sizeof v) || (int)strlen(v) != M->m * M->n) return -1;
     M->bits = 0; for (int i = 0; i < M->m * M->n; i++) if (v[i] == '1') M->bits |= 1u << i;
     M->symok = M->m == M->n; if (M->symok) for (int i = 0; i < M->m; i++) for (int j = 0; j < M->n; j++) if (mbit(M, i, j) != mbit(M, j, i)) M->symok = 0;
 #define KVI(key, field) if (getkv(s, key, v, sizeof v)) L->field = atoi(v)
